@@ -5,8 +5,10 @@ CONSTANTS
   Sites = {1, 4}
   StrLens = {0, 5}
   CallocShapes <- ShapesQuick
-  Levels = {4, 5}
+  SrcOffsets = {0}
+  HugeSizes <- HugeAll
+  Levels = {0, 1, 3, 4, 5}
   Obs <- ObsEmit
-INVARIANTS TypeOK TableIsLiveSet UnknownPointerNoChange ReallocNullAllocates ReallocZeroFrees ReallocKeepsOthers
+INVARIANTS TypeOK TableIsLiveSet UnknownPointerNoChange ReallocNullAllocates ReallocZeroFrees ReallocKeepsOthers RefusedChangesNothing
 PROPERTY LevelConstant
 CHECK_DEADLOCK FALSE
